@@ -66,6 +66,9 @@ func gen(g *mon.Gen) {
 	for i := 0; i < g.Pick(4, 40); i++ {
 		g.Emit(&Case{Mask: i % 2, Seed: rng.Int63(), K: 0, Terminal: "restart"}) // odd: a first Shutdown attempt that times out comes before the real one
 	}
+	for i := 0; i < g.Pick(4, 60); i++ {
+		g.Emit(&Case{Mask: 12, Seed: rng.Int63(), K: 0, Terminal: "limiter"})
+	}
 	for i := 0; i < g.Pick(6, 60); i++ {
 		// the context ends while an accept callback is running (masks with both the accept and the close callback)
 		g.Emit(&Case{Mask: 12 | i%4, Seed: rng.Int63(), K: 3 + rng.Intn(8), Terminal: "cancel", InAccept: 1 + i%3, Yield: i%2 == 0, HDelay: rng.Intn(3)})
@@ -278,6 +281,153 @@ func runAtStart(c *Case, r *mon.Rec, rng *rand.Rand) {
 	}
 }
 
+// runLimiter: the two connection callbacks used together the way an admission limiter uses them: the accept callback
+// takes a slot (and waits for one when none is free), the close callback - which takes a moment - gives it back. Both
+// look at the server (Addr) while they run. One slot, three clients in a row: B waits in the accept callback until A has
+// gone and A's close callback has run; C is dialled while B's close callback is still running.
+// Oracles: B is admitted and answered once A is gone (the callbacks run outside whatever the server needs for cleaning
+// up a connection); the counts told are exact: A 1, B 2 (A is certainly alive), C 1 (B's close callback had begun
+// before C was dialled, so B is not a live connection any more).
+func runLimiter(c *Case, r *mon.Rec, rng *rand.Rand) {
+	l := srvx.NewMemListener()
+	dev := simdev.New(uint64(c.Seed), "srv")
+	slots := make(chan struct{}, 1)
+	slow := time.Duration(60+rng.Intn(60)) * time.Millisecond
+	var mu sync.Mutex
+	var accepts []acceptEv
+	var closes, closesDone []closeEv
+	s := &server.Server{OnErrorFunc: func(error) {}, WriteTimeout: 2 * time.Second}
+	s.OnAcceptConnFunc = func(ctx context.Context, remote net.Addr, count uint64) error {
+		_ = s.Addr()
+		e := acceptEv{entry: l.Clk.Tick(), remote: remote.String(), count: count}
+		mu.Lock()
+		accepts = append(accepts, e)
+		mu.Unlock()
+		select {
+		case slots <- struct{}{}:
+			return nil
+		case <-ctx.Done():
+			return ctx.Err()
+		}
+	}
+	s.OnCloseConnFunc = func(ctx context.Context, remote net.Addr, isShutdown bool) {
+		_ = s.Addr()
+		e := closeEv{entry: l.Clk.Tick(), remote: remote.String(), shutdown: isShutdown}
+		mu.Lock()
+		closes = append(closes, e)
+		mu.Unlock()
+		time.Sleep(slow)
+		select {
+		case <-slots:
+		default:
+		}
+		e.entry = l.Clk.Tick()
+		mu.Lock()
+		closesDone = append(closesDone, e)
+		mu.Unlock()
+	}
+	ctx, cancel := context.WithCancel(context.Background())
+	ret := make(chan error, 1)
+	go func() { ret <- s.Serve(ctx, l, srvx.DevHandler(dev, nil)) }()
+	defer func() {
+		cancel()
+		select {
+		case <-ret:
+		case <-time.After(3 * time.Second):
+		}
+	}()
+	a := mon.Attrs{"terminal": c.Terminal}
+	r.Eval(1)
+	r.Cover("terminal", c.Terminal)
+	refDev := simdev.New(uint64(c.Seed), "srv")
+	type cres struct {
+		cli   net.Conn
+		rc    *srvx.RecConn
+		reply []byte
+		want  []byte
+		err   error
+	}
+	exchange := func(i int, wait time.Duration) chan cres {
+		ch := make(chan cres, 1)
+		go func() {
+			var x cres
+			x.cli, x.rc, x.err = l.Dial(3 * time.Second)
+			if x.err != nil {
+				ch <- x
+				return
+			}
+			q := specref.Req{FC: 3, Unit: uint8(1 + i), TID: uint16(100 + i), Addr: uint16(rng.Intn(60000)), Qty: uint16(1 + i)}
+			x.want = refDev.Handle(q).Encode(specref.TCP)
+			_ = x.cli.SetWriteDeadline(time.Now().Add(wait))
+			if _, x.err = x.cli.Write(q.Encode(specref.TCP)); x.err == nil {
+				x.reply, _ = srvx.ReadN(x.cli, len(x.want), wait)
+			}
+			ch <- x
+		}()
+		return ch
+	}
+	nAccepts := func() int { mu.Lock(); defer mu.Unlock(); return len(accepts) }
+	nCloses := func() int { mu.Lock(); defer mu.Unlock(); return len(closes) }
+	waitFor := func(f func() bool, d time.Duration) bool {
+		for t := time.Now(); time.Since(t) < d; time.Sleep(200 * time.Microsecond) {
+			if f() {
+				return true
+			}
+		}
+		return f()
+	}
+	xa := <-exchange(0, 3*time.Second)
+	if xa.err != nil || !bytes.Equal(xa.reply, xa.want) {
+		r.Inconclusive(fmt.Sprintf("limiter: first client not served: err=%v reply % x", xa.err, xa.reply))
+		return
+	}
+	chB := exchange(1, 8*time.Second)
+	if !waitFor(func() bool { return nAccepts() >= 2 }, 3*time.Second) {
+		r.Inconclusive("limiter: the accept callback for the second client was not entered within 3 s")
+		return
+	}
+	xa.cli.Close() // A goes away: its slot comes back through the close callback
+	xb := <-chB
+	mu.Lock()
+	witness := fmt.Sprintf("server-side Close calls on A: %d, close callbacks begun: %d, finished: %d", xa.rc.ServerCloses(), len(closes), len(closesDone))
+	mu.Unlock()
+	r.Eval(1)
+	if xb.err != nil || !bytes.Equal(xb.reply, xb.want) {
+		r.Violate(c, "callbacks-block-connection-cleanup", a, fmt.Sprintf("one-slot admission limiter (accept callback waits for a slot, close callback frees it): client B was waiting in the accept callback, client A disconnected, and 8 s later B still had no answer (err=%v, %d reply bytes); %s", xb.err, len(xb.reply), witness))
+		return
+	}
+	r.Cover("limiter", "second client admitted after the first one left")
+	xb.cli.Close()
+	if !waitFor(func() bool { return nCloses() >= 2 }, 3*time.Second) {
+		r.Violate(c, "close-callback-missing", a, "limiter: client B disconnected, no close callback for it was entered within 3 s")
+		return
+	}
+	xc := <-exchange(2, 8*time.Second) // dialled while B's close callback is still busy
+	mu.Lock()
+	acc := append([]acceptEv{}, accepts...)
+	mu.Unlock()
+	r.Eval(1)
+	if xc.err != nil || !bytes.Equal(xc.reply, xc.want) {
+		r.Violate(c, "callbacks-block-connection-cleanup", a, fmt.Sprintf("limiter: client C (dialled while B's close callback was running) had no answer after 8 s (err=%v, %d reply bytes)", xc.err, len(xc.reply)))
+		return
+	}
+	xc.cli.Close()
+	wantCounts := []uint64{1, 2, 1}
+	for i, e := range acc {
+		if i < 3 {
+			r.Eval(1)
+			if e.count != wantCounts[i] {
+				r.Violate(c, "accept-count-wrong", mon.Attrs{"on_close": true, "direction": map[bool]string{true: "high", false: "low"}[e.count > wantCounts[i]]},
+					fmt.Sprintf("limiter: accept callback %d (%s) was told %d live connections, true count %d (A alone; B while A is alive; C after A has gone and B's close callback had begun before C was dialled)", i+1, e.remote, e.count, wantCounts[i]))
+			}
+		}
+	}
+	r.Distinct(mon.Mix(0x11a7, uint64(c.Seed)))
+	sctx, scancel := context.WithTimeout(context.Background(), 3*time.Second)
+	_ = s.Shutdown(sctx)
+	scancel()
+}
+
 // runRestart: the same Server value serves twice. The first serve call ends by context cancellation while one request is
 // still in its handler; a second serve call (new listener) follows; then Shutdown. What the server knows about the
 // connection from the first serve call must survive the second one: Shutdown may return nil only after the reply owed to
@@ -456,6 +606,10 @@ func run(ci any, r *mon.Rec) {
 		runRestart(c, r, rng)
 		return
 	}
+	if c.Terminal == "limiter" {
+		runLimiter(c, r, rng)
+		return
+	}
 	sc := &scenario{c: c, r: r, l: srvx.NewMemListener(), hstart: map[uint16]int64{}, hend: map[uint16]int64{}, rejected: map[string]bool{}, inflight: make(chan struct{}, 64), hdone: make(chan struct{}, 64), inAccept: make(chan struct{}, 1)}
 	sc.clk = sc.l.Clk
 	a := mon.Attrs{"mask": c.Mask, "terminal": c.Terminal}
@@ -477,6 +631,7 @@ func run(ci any, r *mon.Rec) {
 	}
 	if c.Mask&4 != 0 {
 		s.OnAcceptConnFunc = func(ctx context.Context, remote net.Addr, count uint64) error {
+			_ = s.Addr() // a callback may look at the server it belongs to
 			e := acceptEv{entry: sc.clk.Tick(), remote: remote.String(), count: count}
 			sc.mu.Lock()
 			e.rejected = sc.rejected[e.remote]
@@ -506,6 +661,12 @@ func run(ci any, r *mon.Rec) {
 			sc.mu.Lock()
 			sc.closes = append(sc.closes, e)
 			sc.mu.Unlock()
+			if c.Seed%2 == 0 {
+				// a close callback that takes a moment (a log line, a metrics update): the connection it is told about is
+				// not a live connection any more while it runs
+				_ = s.Addr()
+				time.Sleep(time.Duration(1+e.entry%3) * time.Millisecond)
+			}
 		}
 	}
 	// yield hook
